@@ -178,10 +178,16 @@ where
     out
 }
 
-fn lex_width(width: &str, c: usize) -> Value {
+/// `skip_tail`: the last 12 of the c rules are rules without a name (white space / comment rules
+/// usually come last), so that the rules beyond the width boundary are all of that kind.
+fn lex_width(width: &str, c: usize, skip_tail: bool) -> Value {
     let mut s = String::from("%%\n");
     for r in 0..c {
-        s.push_str(&format!("a{} 'T{}'\n", r, r));
+        if skip_tail && r + 12 >= c {
+            s.push_str(&format!("a{} ;\n", r));
+        } else {
+            s.push_str(&format!("a{} 'T{}'\n", r, r));
+        }
     }
     macro_rules! go {
         ($T:ty) => {{
@@ -213,8 +219,8 @@ pub fn worker(_args: &[String]) {
         let fam = c["family"].as_str().unwrap_or("");
         let n = c["c"].as_u64().unwrap_or(0) as usize;
         let width = c["width"].as_str().unwrap_or("u32");
-        if fam == "lexrules" {
-            return lex_width(width, n).to_string();
+        if fam == "lexrules" || fam == "lexskip" {
+            return lex_width(width, n, fam == "lexskip").to_string();
         }
         let (text, _, _, _) = family(fam, n);
         let inputs = all_inputs(2, 3);
@@ -228,7 +234,7 @@ pub fn worker(_args: &[String]) {
 }
 
 pub fn run(ctx: Ctx) -> i32 {
-    let fams = ["rules", "tokens", "prods", "symbols", "ecosymbols", "states", "lexrules"];
+    let fams = ["rules", "tokens", "prods", "symbols", "ecosymbols", "states", "lexrules", "lexskip"];
     let widths = ["u8", "u16", "u32"];
     if let Some(case) = load_replay(&ctx) {
         // the quick exploration takes about a second: replay = run it again and keep the
@@ -324,7 +330,7 @@ pub fn run(ctx: Ctx) -> i32 {
             "error" => ctx.violation("c20-error", &format!("family {} with c = {} in {}: {}", f, c, w, v["msg"]), case),
             "ok" => {
                 oks += 1;
-                if f == "lexrules" {
+                if f == "lexrules" || f == "lexskip" {
                     if v["rules"].as_u64() != Some(c as u64) || v["distinct_ids"].as_u64() != Some(c as u64) {
                         ctx.violation("c20-lex-wrap", &format!("lexer with {} rules in {}: {} rules with {} distinct ids", c, w, v["rules"], v["distinct_ids"]), case);
                     }
